@@ -9,15 +9,17 @@ A case is  {'op':'insp', 'fmt', 'n', 'bg', 'p':[[off, hex],...], 'sizes':[...], 
   late  = a chunk presented after finish().
 """
 import sys, os, random, struct, uuid
-import gen_insp, gen_insp_engine
+import gen_insp, gen_insp_engine, gen_insp_hooks
 sys.path.insert(0, os.path.dirname(os.path.dirname(os.path.abspath(__file__))))
 import insp_obs
 
 import os
 ID = 'C01'
 GEN = [('Gen/Insp_Consts.v', gen_insp.generate), ('Gen/Insp_Code.v', gen_insp.generate_code),
-       ('Gen/Insp_EngineCode.v', gen_insp_engine.generate), ('Gen/Insp_FormatCode.v', gen_insp_engine.generate_formats)]
-EQUIV_FILES = ['Proofs/Insp_Equiv.v', 'Proofs/Insp_EngineEquiv.v', 'Proofs/Insp_FormatEquiv.v', 'Proofs/Insp_FormatMatchEquiv.v']
+       ('Gen/Insp_EngineCode.v', gen_insp_engine.generate), ('Gen/Insp_FormatCode.v', gen_insp_engine.generate_formats),
+       ('Gen/Insp_HookCode.v', lambda: gen_insp_hooks.generate(HOOKS))]
+HOOKS = ('qcow', 'vhdx', 'vmdk')
+EQUIV_FILES = ['Proofs/Insp_Equiv.v', 'Proofs/Insp_EngineEquiv.v', 'Proofs/Insp_FormatEquiv.v', 'Proofs/Insp_FormatMatchEquiv.v', 'Proofs/Insp_HookEquiv.v']
 # further theorem files are picked up when present (VMDK / VHDX refinement, wrapper verdict)
 THEOREM_FILES = ['Properties/C01.v'] + [f for f in ('Properties/C01_Vmdk.v', 'Properties/C01_Vhdx.v', 'Properties/C01_Wrapper.v')
                                         if os.path.exists(os.path.join(os.path.dirname(os.path.dirname(os.path.dirname(os.path.abspath(__file__)))), 'coq', f))]
